@@ -23,6 +23,7 @@ def dyadic_weights(rs, k, bits=5):
     return [p / tot for p in parts]
 
 
+CLT_REFIT = 0.2     # probability that a generated Chow-Liu leaf gets its tables from BinaryCLT.fit on a GIVEN structure (once or twice)
 CLT_EM_INIT = 0.2   # probability that a generated Chow-Liu leaf is passed through BinaryCLT.em_init before it is used
 CLT_DET = 0.0     # probability that a generated Chow-Liu leaf gets exact 0/1 table entries (set by C01/C02 only)
 
@@ -43,6 +44,23 @@ def rand_clt(rs, scope, permute=True):
     with np.errstate(divide="ignore"):
         c = BinaryCLT(list(scope), tree=tree, params=np.log(params).tolist())
     c._verif_probs = params
+    if CLT_REFIT and n > 1 and rs.rand() < CLT_REFIT:
+        # structure given, parameters learned: a tree built from its predecessor vector alone and then fitted on data (as the XPC
+        # learner builds its leaves), or a tree fitted a second time; tables put on a dyadic grid row by row as below
+        if rs.rand() < 0.6:                       # the learners that hand a structure to fit() put the root at position 0
+            order = [0] + [int(v) for v in 1 + rs.permutation(n - 1)]; tree = [-1] * n
+            for k in range(1, n):
+                tree[order[k]] = int(order[rs.randint(0, k)])
+        c = BinaryCLT(list(scope), tree=list(tree))
+        for _ in range(int(rs.randint(1, 3))):
+            d = (rs.rand(int(rs.randint(8, 40)), n) < rs.uniform(0.2, 0.8, size=n)).astype(np.float32)
+            c.fit(d, [[0, 1]] * n, alpha=float(rs.choice([0.1, 0.5, 1.0])), random_state=np.random.RandomState(int(rs.randint(1 << 30))))
+        pr = np.exp(np.asarray(c.params, dtype=np.float64))[:, :, 1]
+        pr = np.clip(np.round(pr * 64.0), 1, 63) / 64.0
+        probs = np.zeros((n, 2, 2)); probs[:, :, 1] = pr; probs[:, :, 0] = 1.0 - pr
+        c.params = np.log(probs).astype(np.float32)
+        c._verif_probs = probs
+        return c
     if CLT_EM_INIT and rs.rand() < CLT_EM_INIT:
         # a tree that went through the library's own random initialisation (em_init, as EM with random_init=True does): the tables
         # it drew are put on a dyadic grid ROW BY ROW (each row stays exactly normalised; nothing is tied or repaired here) and
